@@ -305,11 +305,15 @@ def run_scenario(spec):
 
     def do(op):
         now_before = be.time_keeper.time()
+        real_before = CLOCK.now - be.time_keeper._last_recent_exit
         out = apply_op(be, cb, names, n_cfg, op)
+        op["_outside"] = frac_str(real_before)
         lines.append((op, out))
         events.append({"op": {k: v for k, v in op.items()}, "now_before": frac_str(now_before),
                        "now": frac_str(be.time_keeper.time()), "real": CLOCK.now,
+                       "last_exit": be.time_keeper._last_recent_exit,
                        "out": {k: out[k] for k in ("delivered", "status", "err", "trial", "busy_ids") if k in out},
+                       "heap_trials": sorted(set(int(e.trial_id) for _, _, e in be._simulator_state.event_heap)),
                        "seed_for": dict(be._seed_for_trial)})
         count("op:" + op["op"])
         if "err" in out:
@@ -453,3 +457,115 @@ def run_scenario(spec):
             if "err" not in o:
                 do({"op": "fetch", "ids": list(range(len(be.trial_ids)))})
     return {"lines": lines, "events": events, "hist": hist, "table": ev, "names": names}
+
+
+# ---------------------------------------------------------------------------------
+# reading of the property statements on an implementation trace (used by the C02 / C10 monitors)
+
+TOL = Fraction(1, 2 ** 40)
+
+
+def close(a, b):
+    """equal up to floating-point round-off (the code computes sums of a few doubles)"""
+    return abs(a - b) <= TOL * max(1, abs(a), abs(b))
+
+
+def expected_run(ctor, ev, cfg, seed, paused_level):
+    """what one run of a trial must report according to C10, in exact arithmetic:
+    list of (level, [table values], elapsed') — levels inside [min fidelity, max_resource],
+    after the paused level for a checkpointed resume; elapsed' = table time rebased by the time at
+    the paused level, then made increasing by at least `min_step`"""
+    fids = ctor["table"]["fids"]
+    tcol = ctor["table"]["tcol"]
+    min_step = Fraction(ctor["min_step"])
+    hi = max(fids)
+    if ctor["max_resource_attr"] and cfg.get("max_res") is not None:
+        hi = cfg["max_res"]
+    rows = []
+    for i, f in enumerate(fids):
+        if min(fids) <= f <= hi:
+            rows.append((f, [Fraction(float(v)) for v in ev[cfg["idx"], seed, i]]))
+    off = Fraction(0)
+    if paused_level is not None and ctor["checkpointing"]:
+        for f, vals in rows:
+            if f == paused_level:
+                off = vals[tcol]
+        rows = [(f, vals) for f, vals in rows if f > paused_level]
+    out = []
+    prev = None
+    for f, vals in rows:
+        e = vals[tcol] - off
+        e = max(e, min_step) if prev is None else max(e, prev + min_step)
+        prev = e
+        out.append((f, vals, e))
+    return out
+
+
+def reconstruct(spec, trace):
+    """replays the observed operations (not the backend) and assigns every delivered result to
+    the run it must stem from.  Returns (runs, deliveries, problems): runs[t] = list of dicts
+    (start, expected, cfg, seed, paused); deliveries = list of dicts per delivered result."""
+    ctor = spec["ctor"]
+    ev = trace["table"]
+    tcol = ctor["table"]["tcol"]
+    d_start = Fraction(ctor["delays"]["delay_start"])
+    d_res = Fraction(ctor["delays"]["delay_on_trial_result"])
+    events = trace["events"]
+    final_seeds = events[-1]["seed_for"] if events else {}
+    runs, cfgs, paused, deliveries, problems = {}, {}, {}, [], []
+
+    def seed_of(t):
+        return ctor["seed"] if ctor["seed"] is not None else final_seeds.get(t)
+
+    def new_run(t, now):
+        sd = seed_of(t)
+        exp = None
+        if sd is not None:
+            try:
+                exp = expected_run(ctor, ev, cfgs[t], sd, paused.get(t))
+            except Exception:  # configuration outside the table etc.: the backend must raise
+                exp = None
+        runs.setdefault(t, []).append({"start": Fraction(now) + d_start, "expected": exp, "cfg": dict(cfgs[t]),
+                                      "seed": sd, "paused": paused.get(t)})
+
+    for k, e in enumerate(events):
+        op = e["op"]
+        if "err" in e["out"]:
+            continue
+        if op["op"] == "start":
+            t = e["out"]["trial"]
+            cfgs[t] = dict(op["cfg"])
+            new_run(t, e["now"])
+        elif op["op"] == "resume":
+            t = op["trial"]
+            if op.get("cfg") is not None:
+                cfgs[t] = dict(op["cfg"])
+            new_run(t, e["now"])
+        elif op["op"] == "pause":
+            if op.get("level") is not None:
+                paused[op["trial"]] = op["level"]
+        elif op["op"] == "fetch":
+            for t, lv, vals, tm in e["out"]["delivered"]:
+                vals = [Fraction(v) for v in vals]
+                tm = Fraction(tm)
+                cands, near = [], []
+                for ri, r in enumerate(runs.get(t, [])):
+                    if r["expected"] is None:
+                        continue
+                    for idx, (f, tv, el) in enumerate(r["expected"]):
+                        if f != lv:
+                            continue
+                        same_vals = all(a == b for j, (a, b) in enumerate(zip(vals, tv)) if j != tcol) and close(vals[tcol], el)
+                        if same_vals and close(tm, r["start"] + el + d_res):
+                            cands.append((ri, idx))
+                        elif same_vals:
+                            near.append((ri, idx, r["start"] + el + d_res))
+                rec = {"event": k, "trial": t, "level": lv, "time": tm, "run": None, "idx": None}
+                if cands:
+                    rec["run"], rec["idx"] = cands[-1]
+                else:
+                    problems.append({"kind": "timestamp" if near else "values", "trial": t, "level": lv,
+                                     "time": str(tm), "values": [str(v) for v in vals],
+                                     "expected_stamps": [str(x[2]) for x in near], "event": k})
+                deliveries.append(rec)
+    return runs, deliveries, problems
